@@ -150,7 +150,7 @@ class _TD(dict):
 
     def _note(self, k):
         if k == "body" and dict.get(self, "k") == "Fn" and "_file" in self:
-            _TRACED.add("%s\t%s\t%s" % (dict.get(self, "_file"), fn_label(self), dict.get(self, "_test")))
+            _TRACED.add("%s\t%s\t%s\t%s" % (dict.get(self, "_file"), fn_label(self), dict.get(self, "_test"), CURRENT_RULE[0]))
 
     def __getitem__(self, k):
         self._note(k)
@@ -162,6 +162,7 @@ class _TD(dict):
 
 
 _TRACED = set()
+CURRENT_RULE = [""]
 _TRACE_HOOK = None
 if os.environ.get("FV_TRACE_FNS"):
     import atexit
